@@ -270,6 +270,15 @@ def run_case(cs):
                     out["ok"] = False
                     out["violation"] = {"sig": f"{cs['backend']}:{op.get('kind')}:{variant}:{ev}:{_classify(rel)}:{v[0]}", "detail": f"{cs['backend']}/{cs['meta']} {op.get('kind')}: crash {variant} mutation {k}/{n} ({ev} {rel}): {v[1]}", "point": [k, variant]}
                     return out
+                # after the restart the client sends the interrupted request again: if it is acknowledged the new
+                # state must hold completely (what the crash left behind must not be taken for finished work)
+                res2, info2 = crash.run_in_child(work, fn, target=None)
+                out["stats"][f"retry:{res2}"] += 1
+                v2 = verify(cs, work, old, new, old_props, new_props, must_be_new=(res2 == "counted"))
+                if v2:
+                    out["ok"] = False
+                    out["violation"] = {"sig": f"{cs['backend']}:{op.get('kind')}:{variant}:{ev}:{_classify(rel)}:retry-{'acknowledged' if res2 == 'counted' else 'refused'}:{v2[0]}", "detail": f"{cs['backend']}/{cs['meta']} {op.get('kind')}: crash {variant} mutation {k}/{n} ({ev} {rel}), restart, the same request again ({res2}): {v2[1]}", "point": [k, variant]}
+                    return out
         return out
     finally:
         shutil.rmtree(scratch, ignore_errors=True)
